@@ -230,45 +230,72 @@ Proof. intros [P _] ND. exact (Permutation_NoDup P ND). Qed.
 Lemma half_pos c : (0 < c)%Q -> (0 < c / 2)%Q /\ (c / 2 + c / 2 == c)%Q.
 Proof. intros H. split; [apply Qlt_shift_div_l; lra|field]. Qed.
 
+(* the tree without its branch lengths *)
+Fixpoint shape (t : tree) : tree :=
+  match t with
+  | Leaf x => Leaf x
+  | Node l _ r _ => Node (shape l) 0 (shape r) 0
+  end.
+
+(* same unrooted topology: generated by the moves of the (artificial) root and
+   by swapping children; branch lengths are ignored *)
+Inductive tiso : tree -> tree -> Prop :=
+| iso_refl t : tiso t t
+| iso_shape t t' : shape t = shape t' -> tiso t t'
+| iso_sym t t' : tiso t t' -> tiso t' t
+| iso_trans t1 t2 t3 : tiso t1 t2 -> tiso t2 t3 -> tiso t1 t3
+| iso_len l bl r br bl' br' : tiso (Node l bl r br) (Node l bl' r br')
+| iso_swap l bl r br : tiso (Node l bl r br) (Node r br l bl)
+| iso_swap_inner u ux c f d dl uy : tiso (Node u ux (Node c f d dl) uy) (Node u ux (Node d dl c f) uy)
+| iso_rot l1 c1 l2 c2 bl r br x1 x2 e :
+    tiso (Node (Node l1 c1 l2 c2) bl r br) (Node l1 x1 (Node l2 c2 r e) x2)
+| iso_rot2 l1 c1 l2 c2 bl r br x1 x2 e :
+    tiso (Node (Node l1 c1 l2 c2) bl r br) (Node l2 x1 (Node l1 c1 r e) x2).
+
 (* re-rooting on the pendant edge of a leaf *)
 Lemma reroot_in_left l : forall bl r br i,
   NoDup (leaves l ++ leaves r) -> positive (Node l bl r br) -> In i (leaves l) ->
-  exists x R y, teq (Node l bl r br) (Node (Leaf i) x R y) /\ positive (Node (Leaf i) x R y).
+  exists x R y, teq (Node l bl r br) (Node (Leaf i) x R y) /\ positive (Node (Leaf i) x R y) /\
+                tiso (Node l bl r br) (Node (Leaf i) x R y).
 Proof.
   induction l as [z|l1 IH1 c1 l2 IH2 c2]; intros bl r br i ND HP Hi.
-  - destruct Hi as [<-|[]]. exists bl, r, br. split; [apply teq_refl|exact HP].
+  - destruct Hi as [<-|[]]. exists bl, r, br. split; [apply teq_refl|]. split; [exact HP|apply iso_refl].
   - cbn [leaves] in ND, Hi. rewrite <- app_assoc in ND.
     cbn [positive] in HP. destruct HP as (Pbl & Pbr & (Pc1 & Pc2 & P1 & P2) & Pr).
     apply in_app_or in Hi. destruct Hi as [Hi|Hi].
     + destruct (half_pos c1 Pc1) as [Hh Eh].
-      destruct (IH1 (c1 / 2)%Q (Node l2 c2 r (bl + br)%Q) (c1 / 2)%Q i) as (x & R & y & HE & HPos).
+      destruct (IH1 (c1 / 2)%Q (Node l2 c2 r (bl + br)%Q) (c1 / 2)%Q i) as (x & R & y & HE & HPos & HI).
       * cbn [leaves]. exact ND.
       * cbn [positive]. repeat split; try assumption; lra.
       * exact Hi.
-      * exists x, R, y. split; [|exact HPos].
-        eapply teq_trans; [apply (teq_rotate l1 c1 l2 c2 bl r br _ _ Eh ND)|exact HE].
+      * exists x, R, y. split; [|split; [exact HPos|]].
+        -- eapply teq_trans; [apply (teq_rotate l1 c1 l2 c2 bl r br _ _ Eh ND)|exact HE].
+        -- eapply iso_trans; [apply iso_rot|exact HI].
     + destruct (half_pos c2 Pc2) as [Hh Eh].
       assert (ND2 : NoDup (leaves l2 ++ leaves l1 ++ leaves r)).
       { eapply Permutation_NoDup; [|exact ND]. rewrite !app_assoc. apply Permutation_app_tail, Permutation_app_comm. }
-      destruct (IH2 (c2 / 2)%Q (Node l1 c1 r (bl + br)%Q) (c2 / 2)%Q i) as (x & R & y & HE & HPos).
+      destruct (IH2 (c2 / 2)%Q (Node l1 c1 r (bl + br)%Q) (c2 / 2)%Q i) as (x & R & y & HE & HPos & HI).
       * cbn [leaves]. exact ND2.
       * cbn [positive]. repeat split; try assumption; lra.
       * exact Hi.
-      * exists x, R, y. split; [|exact HPos].
-        eapply teq_trans; [apply (teq_rotate2 l1 c1 l2 c2 bl r br _ _ Eh ND)|exact HE].
+      * exists x, R, y. split; [|split; [exact HPos|]].
+        -- eapply teq_trans; [apply (teq_rotate2 l1 c1 l2 c2 bl r br _ _ Eh ND)|exact HE].
+        -- eapply iso_trans; [apply iso_rot2|exact HI].
 Qed.
 
 Theorem reroot_leaf T i : NoDup (leaves T) -> positive T -> In i (leaves T) -> 2 <= length (leaves T) ->
-  exists x R y, teq T (Node (Leaf i) x R y) /\ positive (Node (Leaf i) x R y).
+  exists x R y, teq T (Node (Leaf i) x R y) /\ positive (Node (Leaf i) x R y) /\ tiso T (Node (Leaf i) x R y).
 Proof.
   intros ND HP Hi L. destruct T as [z|l bl r br]; [cbn in L; lia|].
   cbn [leaves] in ND, Hi. apply in_app_or in Hi. destruct Hi as [Hi|Hi].
   - exact (reroot_in_left l bl r br i ND HP Hi).
   - assert (ND' : NoDup (leaves r ++ leaves l)).
     { eapply Permutation_NoDup; [apply Permutation_app_comm|exact ND]. }
-    destruct (reroot_in_left r br l bl i ND') as (x & R & y & HE & HPos); [|exact Hi|].
+    destruct (reroot_in_left r br l bl i ND') as (x & R & y & HE & HPos & HI); [|exact Hi|].
     + cbn [positive] in *. tauto.
-    + exists x, R, y. split; [|exact HPos]. eapply teq_trans; [apply teq_swap; exact ND|exact HE].
+    + exists x, R, y. split; [|split; [exact HPos|]].
+      * eapply teq_trans; [apply teq_swap; exact ND|exact HE].
+      * eapply iso_trans; [apply iso_swap|exact HI].
 Qed.
 
 (* ------------------------------------------------------------------ *)
@@ -382,4 +409,43 @@ Proof.
     + rewrite (dep_l l r bl br) by assumption. rewrite !(tdist_rl l r bl br ND) by assumption. lra.
     + rewrite (dep_r l r bl br ND) by assumption. rewrite !(tdist_rr l r bl br ND) by assumption.
       pose proof (Hk k Ik N1 N2). lra.
+Qed.
+
+(* rotations with the lengths given up to == *)
+Lemma teq_rotate_gen l1 c1 l2 c2 bl r br x1 x2 e : (x1 + x2 == c1)%Q -> (e == bl + br)%Q ->
+  NoDup (leaves l1 ++ leaves l2 ++ leaves r) ->
+  teq (Node (Node l1 c1 l2 c2) bl r br) (Node l1 x1 (Node l2 c2 r e) x2).
+Proof.
+  intros Ec Ee ND. split; [cbn [leaves]; rewrite <- app_assoc; apply Permutation_refl|].
+  intros x y Hx Hy N. cbn [leaves] in Hx, Hy. rewrite <- app_assoc in Hx, Hy.
+  destruct (region3 l1 l2 r x ND Hx) as [(X1 & X2 & X3)|[(X1 & X2 & X3)|(X1 & X2 & X3)]];
+  destruct (region3 l1 l2 r y ND Hy) as [(Y1 & Y2 & Y3)|[(Y1 & Y2 & Y3)|(Y1 & Y2 & Y3)]];
+    cbn [tdist dep]; rewrite ?has_node, ?X1, ?X2, ?X3, ?Y1, ?Y2, ?Y3; cbn [orb andb];
+    rewrite ?X1, ?X2, ?X3, ?Y1, ?Y2, ?Y3; try reflexivity; lra.
+Qed.
+
+Lemma teq_rotate2_gen l1 c1 l2 c2 bl r br x1 x2 e : (x1 + x2 == c2)%Q -> (e == bl + br)%Q ->
+  NoDup (leaves l1 ++ leaves l2 ++ leaves r) ->
+  teq (Node (Node l1 c1 l2 c2) bl r br) (Node l2 x1 (Node l1 c1 r e) x2).
+Proof.
+  intros Ec Ee ND. split.
+  - cbn [leaves]. rewrite <- app_assoc. rewrite !app_assoc.
+    apply Permutation_app_tail. apply Permutation_app_comm.
+  - intros x y Hx Hy N. cbn [leaves] in Hx, Hy. rewrite <- app_assoc in Hx, Hy.
+    destruct (region3 l1 l2 r x ND Hx) as [(X1 & X2 & X3)|[(X1 & X2 & X3)|(X1 & X2 & X3)]];
+    destruct (region3 l1 l2 r y ND Hy) as [(Y1 & Y2 & Y3)|[(Y1 & Y2 & Y3)|(Y1 & Y2 & Y3)]];
+      cbn [tdist dep]; rewrite ?has_node, ?X1, ?X2, ?X3, ?Y1, ?Y2, ?Y3; cbn [orb andb];
+      rewrite ?X1, ?X2, ?X3, ?Y1, ?Y2, ?Y3; try reflexivity; lra.
+Qed.
+
+(* a distance function that is the metric of T is the metric of every equivalent tree *)
+Definition metric_of (d : nat -> nat -> Q) (T : tree) : Prop :=
+  forall x y, In x (leaves T) -> In y (leaves T) -> x <> y -> (d x y == tdist T x y)%Q.
+
+Lemma metric_of_teq d T T' : teq T T' -> metric_of d T -> metric_of d T'.
+Proof.
+  intros [P H] Hd x y Hx Hy N.
+  pose proof (Permutation_in _ (Permutation_sym P) Hx) as Hx'.
+  pose proof (Permutation_in _ (Permutation_sym P) Hy) as Hy'.
+  rewrite (Hd x y Hx' Hy' N). exact (H x y Hx' Hy' N).
 Qed.
